@@ -1,5 +1,6 @@
 """C15 — generated message types carry exactly the generic parameters they use."""
 import itertools
+import zlib
 import json
 import re
 
@@ -22,6 +23,9 @@ PATTERNS = [
     ("exec_and_query", [("exec", "arg", "{P}"), ("query", "arg", "{P}")]),
     ("query_resp_attr", [("query", "resp", "{P}")]),
     ("exec_twice", [("exec", "arg", "{P}"), ("exec", "arg", "Option<{P}>")]),
+    ("exec_vec_tuple", [("exec", "arg", "Vec<({P}, u32)>")]),
+    ("query_ret_opt_tuple", [("query", "ret", "Option<({P}, u32)>")]),
+    ("sudo_opt_array", [("sudo", "arg", "Option<[{P}; 2]>")]),
 ]
 
 PNAMES = ["TA", "TB", "TD"]   # single letters are C19's subject (some collide with helper parameters)
@@ -103,7 +107,7 @@ def programs(tier):
         for pats in pat_lists:
             wv = where_variants(params)
             if tier == "quick" and n == 3:
-                wv = wv[:1] if hash(tuple(p[0] for p in pats)) % 5 else wv[:2] + wv[4:5]
+                wv = wv[:1] if zlib.crc32("+".join(p[0] for p in pats).encode()) % 5 else wv[:2] + wv[4:5]
             for wname, wheres in wv:
                 pid = "g%d:%s:%s" % (n, "+".join(p[0] for p in pats), wname)
                 obj, used = build_contract(params, pats, wheres)
@@ -167,7 +171,7 @@ def check(res, pid, where, o, params, used, wheres, src):
                         bad("impl of %s carries bounds %s, the user's bounds over its parameters are %s" % (st, it["where"], eligible), "where_set")
                 for f in it["items"]:
                     if f.get("k") == "fn" and f["name"] == "dispatch":
-                        extra = [g for g in f["generics"] if g != "ContractT"]
+                        extra = [g for g in f["generics"] if g not in ("ContractT", "SvContractT")]
                         if where == "contract" and set(extra) | set(got) != set(params):
                             bad("dispatch of %s introduces %s next to %s; all parameters are %s" % (st, extra, got, params), "dispatch_unused")
                         if set(extra) & set(got):
@@ -204,10 +208,11 @@ def e2_programs(tier):
         ("pg3", ["TA", "TB", "TD"], [PATTERNS[6], PATTERNS[7], PATTERNS[8]], [], {"TA": "Inner", "TB": "bool", "TD": "String"}),
         ("pg4", ["TA", "TB"], [PATTERNS[4], PATTERNS[5]], ["TA: Clone"], {"TA": "u32", "TB": "String"}),
         ("pg5", ["TA", "TB", "TD"], [PATTERNS[11], PATTERNS[10], PATTERNS[0]], ["TD: Clone"], {"TA": "En", "TB": "u32", "TD": "u64"}),
+        ("pg6", ["TA", "TB", "TD"], [PATTERNS[12], PATTERNS[13], PATTERNS[14]], [], {"TA": "String", "TB": "Inner", "TD": "u32"}),
     ]
     if tier == "thorough":
-        k = 6
-        for pats in itertools.product(PATTERNS[:10], repeat=2):
+        k = 7
+        for pats in itertools.product(PATTERNS[:10] + PATTERNS[12:], repeat=2):
             combos.append(("pg%d" % k, ["TA", "TB"], list(pats), ["TA: Clone"], {"TA": "u32", "TB": "String"}))
             k += 1
     BOUNDS = "sylvia::serde::Serialize + sylvia::serde::de::DeserializeOwned + std::fmt::Debug + Clone + PartialEq + sylvia::schemars::JsonSchema + 'static"
@@ -226,6 +231,22 @@ def e2_programs(tier):
         c.concrete = tuple(conc[p] for p in params)
         c.entry_points = "generics<%s>" % ", ".join(c.concrete)
         out.append((pid, c, params, used, conc))
+    # parameters first used in an order other than their declaration order, several per message kind (the accessor
+    # aliases, the message types and their impls must agree on one order; message types are reached through ContractApi)
+    W = ["%s: %s" % (p, BOUNDS) for p in ("TA", "TB", "TD")]
+    for j, perm in enumerate([("TB", "TA", "TD"), ("TD", "TB", "TA"), ("TB", "TD", "TA")]):
+        a, b, d = perm
+        ms = [Method("instantiate", "inst", (Arg("x1", a), Arg("x2", "Vec<%s>" % b))),
+              Method("exec", "e_h", (Arg("x1", a), Arg("x2", b), Arg("x3", "Option<%s>" % d))), Method("exec", "e_plain", (Arg("n", "u32"),)),
+              Method("query", "q_args", (Arg("x1", "Vec<%s>" % d), Arg("x2", a))), Method("query", "q_ret0", (), qret="(%s, u32)" % b, body="{ todo!() }"),
+              Method("sudo", "s_h", (Arg("x1", "Vec<(%s, u32)>" % d), Arg("x2", "[%s; 2]" % a))),
+              Method("migrate", "mig", (Arg("x1", d), Arg("x2", a)))]
+        c = Contract(methods=tuple(ms), generics=(("TA", ""), ("TB", ""), ("TD", "")), where=tuple(W),
+                     new="pub const fn new() -> Self { Self { _p: std::marker::PhantomData } }")
+        conc = {"TA": "u32", "TB": "String", "TD": "bool"}
+        c.concrete = tuple(conc[p] for p in ("TA", "TB", "TD"))
+        c.entry_points = "generics<%s>" % ", ".join(c.concrete)
+        out.append(("pgr%d" % j, c, ["TA", "TB", "TD"], None, conc))
     return out
 
 
@@ -245,7 +266,7 @@ def run_e2(res, tier, extended=True):
         arms = e2.basic_glue(c, None)
         # static assertion: each message type is nameable with just its used parameters (declaration order)
         asserts = []
-        for kind, tn in model.MSG_NAME.items():
+        for kind, tn in (model.MSG_NAME.items() if used is not None else ()):
             if kind == "migrate" and not any(m.kind == "migrate" for m in c.methods):
                 continue
             if kind == "reply":
